@@ -64,7 +64,7 @@ def exc_info(e):
     return out
 
 
-def walk(b, max_paths=5000, orders='all', rnd=None):
+def walk(b, max_paths=5000, orders='all', rnd=None, stop_infeasible=True):
     """Take every active selection choice with every option, in every order (DFS over the real API).
     yields (path, dsg) for every leaf (no selection choice active any more); path = [(sel name, option name)]"""
     import adsg_core.graph.adsg_nodes as an
@@ -72,6 +72,13 @@ def walk(b, max_paths=5000, orders='all', rnd=None):
     stack = [([], b.dsg)]
     while stack:
         path, g = stack.pop()
+        if stop_infeasible and not g.feasible:
+            # an infeasible graph is a dead end: nobody resolves further choices on it
+            n_paths[0] += 1
+            yield path, g, None
+            if n_paths[0] >= max_paths:
+                return
+            continue
         nxt = [n for n in g.get_ordered_next_choice_nodes() if isinstance(n, an.SelectionChoiceNode)]
         if not nxt:
             n_paths[0] += 1
@@ -84,7 +91,12 @@ def walk(b, max_paths=5000, orders='all', rnd=None):
         elif orders == 'random' and rnd is not None:
             nxt = [rnd.choice(nxt)]
         for cn in nxt:
-            opts = g.get_option_nodes(cn)
+            try:
+                opts = g.get_option_nodes(cn)
+            except Exception as e:  # noqa -- an active choice that is not in the graph any more
+                n_paths[0] += 1
+                yield path + [(b.name(cn), '<get_option_nodes>')], None, e
+                continue
             for o in opts:
                 try:
                     g2 = g.get_for_apply_selection_choice(cn, o)
